@@ -11,4 +11,4 @@ CONSTANTS
   MutNoDropCancel = FALSE
   MutNoWaker = FALSE
 SPECIFICATION Spec
-INVARIANTS Safety
+INVARIANTS TypeOK ExtInnermost RegSound CancelOnlyVisible BadPersOnlyVisible FailFastPrompt Fused TryTake DropCancels PanicOnlyKnown OwnResult
